@@ -340,3 +340,11 @@ pub fn shrink_replay(prop: &dyn Prop, rep: &Value, cx: &Cx, budget: usize, isola
     }
     out
 }
+
+/// the JSON a child `mmv` process printed after the marker `MMVRESULT ` (programs under test may
+/// print to stdout themselves)
+pub fn child_result(stdout: &[u8]) -> Result<Value, String> {
+    let text = String::from_utf8_lossy(stdout);
+    let line = text.lines().rev().find_map(|l| l.strip_prefix("MMVRESULT ")).ok_or("no result line")?;
+    serde_json::from_str(line).map_err(|e| e.to_string())
+}
